@@ -41,6 +41,14 @@ type PathFlow struct {
 	// a parameter of the function containing v (and of its callers on the current chain) to
 	// the argument supplied at the call sites the walk came through.
 	OnBarrier func(v ssa.Value, marked bool, argOf func(p *ssa.Parameter) ssa.Value)
+	// FollowGlobals: continue from a load of a package-level variable into every store to it
+	// in the repository.
+	FollowGlobals bool
+	// OnStateCross is called whenever the walk continues from a read of shared state (a
+	// struct field not rooted in a local allocation, a map held in such a field, a
+	// package-level variable) into a write of that state: read is the loading/lookup value,
+	// write the storing instruction, val the value written.
+	OnStateCross func(read ssa.Value, write ssa.Instruction, val ssa.Value)
 	// Within: when non-nil the walk never leaves this function (parameters are leaves).
 	Within *ssa.Function
 	// MaxNodes bounds the walk (default 6000); exceeding it sets Top.
@@ -186,7 +194,7 @@ func (w *pathWalker) visit(v ssa.Value, ctx *pathCtx, cross int, marked bool) {
 	case *ssa.IndexAddr:
 		w.visit(x.X, ctx, cross, marked)
 	case *ssa.Lookup:
-		w.visit(x.X, ctx, cross, marked)
+		w.lookup(x, ctx, cross, marked)
 	case *ssa.Range:
 		w.visit(x.X, ctx, cross, marked)
 	case *ssa.Next:
@@ -364,6 +372,9 @@ func (w *pathWalker) load(x *ssa.UnOp, ctx *pathCtx, cross int, marked bool) {
 		f := FieldOfAddr(a)
 		if w.q.FollowField != nil && w.q.Prog != nil && w.q.Within == nil && f != nil && w.q.FollowField(f) {
 			for _, acc := range w.q.Prog.FieldAccessesOfKind(f, FieldStore) {
+				if w.q.OnStateCross != nil {
+					w.q.OnStateCross(x, acc.Instr, acc.Val)
+				}
 				w.visit(acc.Val, nil, cross+1, marked)
 			}
 		}
@@ -378,9 +389,61 @@ func (w *pathWalker) load(x *ssa.UnOp, ctx *pathCtx, cross int, marked bool) {
 	case *ssa.FreeVar:
 		w.freevar(a, ctx, cross, marked)
 	case *ssa.Global:
+		if w.q.FollowGlobals && w.q.Prog != nil && w.q.Within == nil {
+			for _, st := range w.q.Prog.globalStores(a) {
+				if w.q.OnStateCross != nil {
+					w.q.OnStateCross(x, st, st.Val)
+				}
+				w.visit(st.Val, nil, cross+1, marked)
+			}
+		}
 	default:
 		w.visit(a, ctx, cross, marked)
 	}
+}
+
+// lookup: an element read from a map. When the map is held in a followed struct field the
+// walk continues into every value inserted into that field's map anywhere in the repository.
+func (w *pathWalker) lookup(x *ssa.Lookup, ctx *pathCtx, cross int, marked bool) {
+	if w.q.FollowField != nil && w.q.Prog != nil && w.q.Within == nil {
+		for _, leaf := range PhiLeaves(x.X) {
+			f, base := LoadedField(leaf)
+			if f == nil || allocRoot(base) != nil || !w.q.FollowField(f) {
+				continue
+			}
+			for _, acc := range w.q.Prog.FieldAccessesOfKind(f, MapInsert) {
+				if w.q.OnStateCross != nil {
+					w.q.OnStateCross(x, acc.Instr, acc.Val)
+				}
+				w.visit(acc.Val, nil, cross+1, marked)
+			}
+		}
+	}
+	w.visit(x.X, ctx, cross, marked)
+}
+
+// single-entry cache (one Program at a time is analysed; older programs must stay collectable)
+var globalStoreCache struct {
+	p   *Program
+	idx map[*ssa.Global][]*ssa.Store
+}
+
+// globalStores lists the stores to a package-level variable in repository code.
+func (p *Program) globalStores(g *ssa.Global) []*ssa.Store {
+	if globalStoreCache.p != p {
+		idx := map[*ssa.Global][]*ssa.Store{}
+		for _, fn := range p.RepoFuncs() {
+			Instrs(fn, func(in ssa.Instruction) {
+				if st, ok := in.(*ssa.Store); ok {
+					if gl, isG := st.Addr.(*ssa.Global); isG {
+						idx[gl] = append(idx[gl], st)
+					}
+				}
+			})
+		}
+		globalStoreCache.p, globalStoreCache.idx = p, idx
+	}
+	return globalStoreCache.idx[g]
 }
 
 // memory: the values written into the local memory that addr denotes (the whole variable:
